@@ -1,6 +1,7 @@
 // Kani harnesses for /repo/src/runtime/dependency_graph.rs
 // (compiled as `crate::runtime::dependency_graph::verif`).
-// Property: C19 (wait graph stays acyclic; waiters are released exactly once with the outcome).
+// Property: C19 (wait graph stays acyclic; waiters are released exactly once with the outcome) -- NOT CLAIMED:
+// these harnesses are the admission probes of DESIGN 3-2/11; none returned a verdict within 45 min.
 // All protocol state lives in one struct behind one mutex and every transition is one method call
 // with explicit thread ids, so interleavings reduce to sequences of atomic steps on this struct.
 // Container-backed (three FxHashMaps): keys are concrete, values/outcomes symbolic.
@@ -28,7 +29,7 @@ fn wr_code(w: WaitResult) -> u8 {
     }
 }
 
-// @verif prop=C19 obl=O1 tier=thorough bounds="empty graph and one edge t1 -> t2 (concrete thread ids 1..3); all 9 ordered pairs queried"
+// @verif prop=NONE obl=O1 tier=thorough bounds="empty graph and one edge t1 -> t2 (concrete thread ids 1..3); all 9 ordered pairs queried"
 // @+ encodes="DependencyGraph::default, DependencyGraph::add_edge, DependencyGraph::depends_on, Edges::depends_on, Edges::insert, Edge::new"
 /// C19-O1 (smallest instance): depends_on is reachability in the wait graph.
 #[kani::proof]
@@ -48,7 +49,7 @@ fn c19_o1_depends_on_one_edge() {
     std::mem::forget(dg);
 }
 
-// @verif prop=C19 obl=O3 tier=thorough bounds="one waiter t1 on query q1 run by t2; symbolic outcome (3 values)"
+// @verif prop=NONE obl=O3 tier=thorough bounds="one waiter t1 on query q1 run by t2; symbolic outcome (3 values)"
 // @+ encodes="DependencyGraph::add_edge, DependencyGraph::unblock_runtimes_blocked_on, DependencyGraph::unblock_runtime, Edge::notify"
 /// C19-O3 (smallest instance): when the awaited query finishes, its waiter leaves the wait graph and finds exactly the
 /// announced outcome; a thread that was not waiting is not touched.
@@ -75,7 +76,7 @@ fn c19_o3_unblock_one_waiter() {
     std::mem::forget(dg);
 }
 
-// @verif prop=C19 obl=O2 tier=thorough bounds="chain t1 -> t2 -> t3 on two queries; then the outcome of q2 symbolic"
+// @verif prop=NONE obl=O2 tier=thorough bounds="chain t1 -> t2 -> t3 on two queries; then the outcome of q2 symbolic"
 // @+ encodes="DependencyGraph::add_edge, DependencyGraph::depends_on, DependencyGraph::unblock_runtimes_blocked_on"
 /// C19-O2/O3: transitive waits are seen by the cycle check (so t3 -> t1 would be refused as a cycle), and releasing the
 /// middle thread removes exactly its edge.
